@@ -114,10 +114,74 @@ func genSshWire(tier string, r *rng) {
 		emitB(append(wireStr([]byte("ssh-ed25519")), wireStr(k)...), gt)
 		emitB(append(append(wireStr([]byte("ssh-ed25519")), wireStr(k)...), 0), "-")
 	}
-	// other algorithms (answered `unmodelled` by the model, compared with nothing), unknown and near-miss names
-	if k, err := ecdsa.GenerateKey(elliptic.P256(), rand.Reader); err == nil {
-		if pk, err := ssh.NewPublicKey(&k.PublicKey); err == nil {
-			emitB(pk.Marshal(), "-")
+	// ECDSA (RFC 5656): real keys on the three curves; points off the curve, coordinates not below the prime, other point
+	// forms and lengths, unknown curves, an inner curve identifier that differs from the algorithm name in front of it
+	type ecCase struct {
+		c    elliptic.Curve
+		id   string
+		name string
+	}
+	ecs := []ecCase{{elliptic.P256(), "nistp256", "P-256"}, {elliptic.P384(), "nistp384", "P-384"}, {elliptic.P521(), "nistp521", "P-521"}}
+	ecBlob := func(algo, inner string, pt []byte) []byte {
+		return append(append(wireStr([]byte(algo)), wireStr([]byte(inner))...), wireStr(pt)...)
+	}
+	for i, ec := range ecs {
+		for rep := 0; rep < 3; rep++ {
+			k, err := ecdsa.GenerateKey(ec.c, rand.Reader)
+			if err != nil {
+				fatalf("ecdsa: %v", err)
+			}
+			pk, err := ssh.NewPublicKey(&k.PublicKey)
+			if err != nil {
+				fatalf("ssh.NewPublicKey: %v", err)
+			}
+			blob := pk.Marshal()
+			emitB(blob, "ec", ec.id, ec.name)
+			if rep > 0 {
+				continue
+			}
+			goodBlobs = append(goodBlobs, blob)
+			pt := elliptic.Marshal(ec.c, k.X, k.Y)
+			bl := (len(pt) - 1) / 2
+			algo := "ecdsa-sha2-" + ec.id
+			other := ecs[(i+1)%3]
+			emitB(ecBlob("ecdsa-sha2-"+other.id, ec.id, pt), "-") // the curve is taken from the inner identifier
+			emitB(ecBlob(algo, other.id, pt), "-")
+			for _, inner := range []string{"nistp224", "", "NISTP256", ec.id + " ", "secp256r1", "P-256"} {
+				emitB(ecBlob(algo, inner, pt), "-")
+			}
+			m := append([]byte{}, pt...)
+			m[len(m)-1] ^= 1
+			emitB(ecBlob(algo, ec.id, m), "-") // off the curve
+			m = append([]byte{}, pt...)
+			m[1+bl/2] ^= 0x10
+			emitB(ecBlob(algo, ec.id, m), "-")
+			for _, first := range []byte{0, 2, 3, 5, 6, 7} {
+				m = append([]byte{}, pt...)
+				m[0] = first
+				emitB(ecBlob(algo, ec.id, m), "-")
+				emitB(ecBlob(algo, ec.id, m[:1+bl]), "-") // compressed forms
+			}
+			emitB(ecBlob(algo, ec.id, pt[:len(pt)-1]), "-")
+			emitB(ecBlob(algo, ec.id, append(append([]byte{}, pt...), 0)), "-")
+			emitB(ecBlob(algo, ec.id, []byte{0}), "-") // the point at infinity
+			emitB(ecBlob(algo, ec.id, nil), "-")
+			// x = p + x' (not below the prime), y unchanged; (0, sqrt b) style extremes: x = 0, y = 0
+			p := ec.c.Params().P
+			big1 := new(big.Int).Add(p, big.NewInt(1))
+			for _, xy := range [][2]*big.Int{{new(big.Int).Add(k.X, p), k.Y}, {k.X, new(big.Int).Add(k.Y, p)}, {big.NewInt(0), big.NewInt(0)}, {p, big1}, {k.X, new(big.Int).Sub(p, k.Y)}} {
+				xb, yb := xy[0].Bytes(), xy[1].Bytes()
+				if len(xb) > bl || len(yb) > bl {
+					continue
+				}
+				q := append([]byte{4}, append(xy[0].FillBytes(make([]byte, bl)), xy[1].FillBytes(make([]byte, bl))...)...)
+				gt := []string{"-"}
+				if xy[0].Cmp(k.X) == 0 && xy[1].Cmp(p) < 0 && xy[1].Cmp(k.Y) != 0 {
+					gt = []string{"ec", ec.id, ec.name} // the negated point is on the curve too
+				}
+				emitB(ecBlob(algo, ec.id, q), gt...)
+			}
+			emitB(append(append([]byte{}, blob...), 9), "-")
 		}
 	}
 	for _, name := range []string{"", "ssh-rsa ", "ssh-rs", "SSH-RSA", "ssh-rsa\x00", "ssh-ed25519x", "ssh-dss", "rsa-sha2-256", "ssh-rsa-cert-v01@openssh.com"} {
